@@ -3,6 +3,7 @@
    listeners, process_request and copy_bidi).  All registry theorems hold for every history size and every sequence
    of create / end / collect operations. *)
 From RP Require Import Base Registry RegistryProofs.
+From RP.Gen Require Gen_relay.
 Local Open Scope nat_scope.
 
 Theorem C16_ids_unique : forall size ops, NoDup (created (rrun size ops)) /\
@@ -41,6 +42,14 @@ Print Assumptions C16_gc_collects_everything.
 Theorem C16_every_outcome_has_a_regular_log : forall o, lifecycle_ok (state_log o) = true.
 Proof. exact every_outcome_has_a_regular_log. Qed.
 Print Assumptions C16_every_outcome_has_a_regular_log.
+
+(* byte counters: every hand-over of read-ahead bytes and every relay arm credits the counter of its own direction
+   (regenerated from src/copy.rs on every run) *)
+Theorem C16_source_shape :
+  Gen_relay.handover_credited_to_own_direction = true /\ Gen_relay.relay_halves_use_own_counters = true /\
+  Gen_relay.every_relay_arm_counts = true.
+Proof. repeat split; reflexivity. Qed.
+Print Assumptions C16_source_shape.
 
 (* the record a failed handshake used to leave (before fix 16f9e6d) is not a regular log *)
 Example C16_lifecycle_rejects : lifecycle_ok [ClientConnected] = false /\
